@@ -178,6 +178,7 @@ def check_only(method: SerializationMethod) -> bool:
         or (isinstance(method, OptionalMethod) and check_only(method.value_method))
         or (
             isinstance(method, UnionMethod)
+            and isinstance(method.fallback, NoFallback)
             and all(check_only(alt.method) for alt in method.alternatives)
         )
     )
